@@ -1,7 +1,7 @@
 SPECIFICATION Spec
 CONSTANTS
   Deviations <- AllDevs
-  Families <- F_index
+  Families <- G_c
   Wide = FALSE
 INVARIANT AtenWellFormed
 INVARIANT DesignOK
